@@ -42,7 +42,45 @@ def candidates(line):
         yield parts[0] + ":" + parts[1] + ": " + " ".join(" ".join(c) for c in cs) + " :"
 
 
-def check(prop, tier, dargs, what, rule_extra):
+def parse_obs(text):
+    """observation string -> list of per-operation records"""
+    a = text.split()
+    p = 0
+    out = []
+    def img():
+        nonlocal p
+        n = int(a[p]); p += 1
+        v = a[p:p + n]; p += n
+        return v
+    while p < len(a):
+        res = a[p]; nl = int(a[p + 1]); p += 2
+        log = []
+        for _ in range(nl):
+            k, d = a[p], a[p + 1]; p += 2
+            log.append((k, d, img() if k == "1" else None))
+        f = a[p]; p += 1
+        out.append({"res": res, "log": log, "faulted": f, "in": img(), "out": img(), "mem": img(), "vars": img()})
+    return out
+
+
+def project07(text):
+    """what C07 is about: everything for successful cycles; for faulting/refused/injected
+    operations only result, latch state, input image and variables (safe-state delivery is C08)"""
+    try:
+        ops = parse_obs(text)
+    except Exception:
+        return text
+    proj = []
+    for o in ops:
+        if o["res"] == "0":
+            proj.append(o)
+        else:
+            proj.append({"res": o["res"], "faulted": o["faulted"], "in": o["in"], "vars": o["vars"],
+                         "reads": [e for e in o["log"] if e[0] == "0"]})
+    return json.dumps(proj)
+
+
+def check(prop, tier, dargs, what, rule_extra, project=None):
     t0 = time.time()
     sd = vlib.seed()
     harness = vlib.cargo_build("c07")
@@ -59,7 +97,8 @@ def check(prop, tier, dargs, what, rule_extra):
     results += vlib.corr_judge(driver, vlib.corr_generate(harness, n, sd, tag), dargs=dargs)
     errors = [r for r in results if "error" in r]
     good = [r for r in results if "error" not in r]
-    diffs = [r for r in good if r["impl"] != r["model"]]
+    same = (lambda r: r["impl"] == r["model"]) if project is None else (lambda r: project(r["impl"]) == project(r["model"]))
+    diffs = [r for r in good if not same(r)]
     specfails = [r for r in good if not r["spec_ok"]]
     violations = []
     fmt = "see harness/src/bin/c07.rs header (config : ops : observations)"
@@ -68,7 +107,7 @@ def check(prop, tier, dargs, what, rule_extra):
         path = vlib.write_replay(prop, {"property": prop, "what": what, "case_line": m["line"], "impl": m["impl"], "model": m["model"], "format": fmt})
         violations.append((path, "observed trace violates the property (Spec/C07Judge.v)", False))
     elif diffs:
-        m = vlib.corr_shrink(harness, driver, diffs[0], lambda x: x["impl"] != x["model"], candidates, tag, dargs=dargs)
+        m = vlib.corr_shrink(harness, driver, diffs[0], lambda x: not same(x), candidates, tag, dargs=dargs)
         path = vlib.write_replay(prop, {"property": prop, "broken": "correspondence Model/Cycle.v + Model/Io.v <-> runtime/cycle.rs, io.rs, io_subsystem.rs",
                                         "case_line": m["line"], "impl": m["impl"], "model": m["model"], "format": fmt})
         violations.append((path, "model and implementation disagree; the spec judge accepts the implementation trace", True))
